@@ -327,7 +327,11 @@ Contexts == <<
     Cx("% right", 3, FALSE), Cx("& left", 3, FALSE), Cx("^ right", 5, FALSE), Cx("<< left", 3, FALSE), Cx(">> right", 5, FALSE),
     Cx("- operand", 6, FALSE), Cx("! operand", 6, FALSE), Cx("cast operand", 5, FALSE), Cx("as operand", 3, FALSE),
     Cx("parenthesis", 0, FALSE), Cx("condition left", 0, TRUE), Cx("condition right", 0, TRUE), Cx("advance", 0, FALSE),
-    Cx("argument in a then branch", 0, FALSE), Cx("set in an else branch", 0, FALSE), Cx("inner block", 0, FALSE) >>
+    Cx("argument in a then branch", 0, FALSE), Cx("set in an else branch", 0, FALSE), Cx("inner block", 0, FALSE),
+    \* (eighth round of seeded changes) a comparison in front of a BLOCK: `if f(&x) == x { ... }` -- an identifier followed by `{`
+    \* is a structure literal everywhere but here
+    Cx("condition left before a block", 0, TRUE), Cx("condition right before a block", 0, TRUE),
+    Cx("condition left before an empty block", 0, TRUE) >>
 Wrap(cx, e) ==
     CASE cx = "result" -> InResult(e)
       [] cx = "const" -> <<NMod(1), NConst("N")>> \o U8 \o e
@@ -362,6 +366,9 @@ Wrap(cx, e) ==
       [] cx = "advance" -> InResult(<<NBin(".."), NDeref(1, "x", 0)>> \o e)
       [] cx = "argument in a then branch" -> InStmt(<<NIf("==", TRUE)>> \o X \o X \o <<NCall("f", 1)>> \o e \o StBlock0)
       [] cx = "set in an else branch" -> InStmt(<<NIf("==", TRUE)>> \o X \o X \o StLoop \o <<NSet(0, "x", 0)>> \o e)
+      [] cx = "condition left before a block" -> InStmt(<<NIf("==", FALSE)>> \o e \o X \o <<NBlock(1)>> \o StLoop)
+      [] cx = "condition right before a block" -> InStmt(<<NIf(">=", TRUE)>> \o X \o e \o <<NBlock(1)>> \o StLoop \o StBlock0)
+      [] cx = "condition left before an empty block" -> FnBody(<<NIf("==", FALSE)>> \o e \o X \o StBlock0 \o <<NSet(0, "x", 0)>> \o One, 2)
       [] cx = "inner block" -> FnBody(<<NBlock(1), NBlock(2)>> \o StLoop \o <<NSet(0, "x", 0)>> \o e \o <<NLabel("l")>>, 2)
 PosOK(i, j) == Contexts[i].lv <= Atoms[j].lv /\ (Contexts[i].c => Atoms[j].c)
 
